@@ -6,6 +6,7 @@ package interp
 import (
 	"fmt"
 	"go/types"
+	"strings"
 	"time"
 
 	"golang.org/x/tools/go/ssa"
@@ -44,16 +45,33 @@ func registerTimeStubs() {
 		// the local zone is modelled as UTC (no zone database is read)
 		return i.global(g.Pkg.Var("utcLoc"))
 	}
+	// The clock is symbolic for reads made directly by repository code; every
+	// other caller (library code the native replay runs on the real clock) gets
+	// a fixed instant. The native replay makes the same distinction.
+	repoCaller := func(fr *frame) bool {
+		c := fr.caller
+		return c != nil && c.fn != nil && c.fn.Pkg != nil && strings.HasPrefix(c.fn.Pkg.Pkg.Path(), "github.com/omec-project/upf-epc")
+	}
+	fixed := func() value { return structure{hasMonotonic, int64(1), (*value)(nil)} }
 	specials["time.Now"] = func(i *interpreter, fr *frame, fn *ssa.Function, args []value) value {
+		if !repoCaller(fr) {
+			return fixed()
+		}
 		return i.timeNow()
 	}
 	specials["time.Since"] = func(i *interpreter, fr *frame, fn *ssa.Function, args []value) value {
 		t := args[0].(structure)
+		if !repoCaller(fr) {
+			return int64(1)
+		}
 		now := i.clockRead()
 		return binop(tokenSUB, nil, now, t[1])
 	}
 	specials["time.Until"] = func(i *interpreter, fr *frame, fn *ssa.Function, args []value) value {
 		t := args[0].(structure)
+		if !repoCaller(fr) {
+			return int64(1)
+		}
 		now := i.clockRead()
 		return binop(tokenSUB, nil, t[1], now)
 	}
